@@ -10,13 +10,17 @@ LEAN_AUDIT = "Dashu.Audit.C05"
 USES_GEN = True
 GEN_PROPS = ["Dashu.Props.GenFloatCmp", "Dashu.Props.GenRatCmp", "Dashu.Props.GenIntOps"]
 GEN_AUDIT = ["Dashu.Audit.GenFloatCmp", "Dashu.Audit.GenRatCmp", "Dashu.Audit.GenIntOps"]
+# round 4: `Context::repr_round` AND its borrowing twin `repr_round_ref` regenerated from float/src/repr.rs and proved equal
+# to `Float.reprRound` (the definition `float_results_fit`, `float_results_canonical` and the `f.ctx` driver op are about)
+GEN_PROPS += ["Dashu.Props.GenFloatOps"]
+GEN_AUDIT += ["Dashu.Audit.GenFloatOps"]
 JOBS = 12
 READY = True
 
 W = 64
 M = (1 << 64) - 1
-N_UROUTES = 34
-N_IROUTES = 22
+N_UROUTES = 40
+N_IROUTES = 26
 
 
 def sizes(tier):
@@ -69,6 +73,52 @@ def fl_digits(s, base):
     return d
 
 
+
+def iroot(x, n):
+    """floor n-th root of x >= 0"""
+    if x < 2 or n == 1:
+        return x
+    lo, hi = 0, 1 << (x.bit_length() // n + 1)
+    while lo < hi:
+        mid = (lo + hi + 1) // 2
+        if mid ** n <= x:
+            lo = mid
+        else:
+            hi = mid - 1
+    return lo
+
+
+DIG = "0123456789abcdefghijklmnopqrstuvwxyz"
+
+
+def to_radix(v, r, rng):
+    """text of |v| in radix r: random case, optional underscores and leading zeros"""
+    v = abs(v)
+    ds = []
+    while v:
+        ds.append(DIG[v % r]); v //= r
+    t = "".join(reversed(ds)) or "0"
+    if rng.random() < 0.3:
+        t = "0" * rng.randrange(1, 40) + t
+    if rng.random() < 0.3:
+        t = t.upper()
+    if rng.random() < 0.3 and len(t) > 1:
+        k = rng.randrange(1, len(t))
+        t = t[:k] + "_" + t[k:]
+    return t
+
+
+def twos_le(v, rng):
+    """two's complement little-endian bytes of v, possibly sign-extended beyond the minimum"""
+    n = 1
+    while not (-(1 << (8 * n - 1)) <= v < (1 << (8 * n - 1))):
+        n += 1
+    if v == 0 and rng.random() < 0.3:
+        n = 0
+    n += rng.choice([0, 0, 1, 7, 8, 9, 17]) if n or rng.random() < 0.5 else 0
+    return list((v & ((1 << (8 * n)) - 1)).to_bytes(n, "little")) if n else []
+
+
 def generate(rng, tier):
     quick = tier == "quick"
     # ---- the same value by many routes: canonical form + pairwise ==, cmp, hash
@@ -102,7 +152,7 @@ def generate(rng, tier):
     # ---- histories: random programs over a register file (the instruction set of the history theorem);
     #      values are tracked here only to keep sizes bounded and to aim shifts/bit positions at the
     #      inline/heap boundary; every register is printed and all pairs are cross-checked in the harness
-    for _ in range(250 if quick else 8000):
+    for _ in range(250 if quick else 25000):
         regs = []
         prog = []
 
@@ -134,7 +184,8 @@ def generate(rng, tier):
             a, b = regs[i], regs[j]
             op = rng.choice(["add", "sub", "sub", "mul", "div", "rem", "dive", "reme", "and", "or", "xor", "not", "neg",
                              "abs", "clone", "sqr", "pow", "shl", "shr", "shr", "setbit", "clearbit", "clearhigh",
-                             "splitlo", "splithi", "nextpow2", "ones"])
+                             "splitlo", "splithi", "nextpow2", "ones",
+                             "gcd", "gcd", "sqrt", "root", "root", "str", "str", "leb", "beb", "sleb", "sbeb", "vle", "vbe"])
             big = max(abs(a), abs(b)).bit_length()
             sh = rng.choice([0, 1, 63, 64, 65, 127, 128, 129, 192, max(big - 1, 0), big, big + 1, max(big - 64, 0), max(big - 128, 0)])
             if op in ("mul", "sqr") and big > 1500:
@@ -177,6 +228,58 @@ def generate(rng, tier):
             elif op == "ones":
                 n = rng.choice([0, 63, 64, 127, 128, 129, 192])
                 emit("ones:%d" % n, (1 << n) - 1)
+            elif op == "gcd":
+                if a == 0 and b == 0:
+                    prog.append("gcd:%d:%d" % (i, j)); break                  # GcdZeroZero ends the history
+                import math
+                emit("gcd:%d:%d" % (i, j), math.gcd(abs(a), abs(b)))
+            elif op == "sqrt":
+                if a < 0:
+                    prog.append("sqrt:%d" % i); break                         # RootNegative
+                emit("sqrt:%d" % i, iroot(a, 2))
+            elif op == "root":
+                n = rng.choice([1, 2, 3, 3, 4, 5, 7, 63, 64, 65, 130, 0 if rng.random() < 0.2 else 3])
+                if n == 0 or (a < 0 and n % 2 == 0):
+                    prog.append("root:%d:%d" % (i, n)); break                 # RootZeroth / RootNegative
+                rt = iroot(abs(a), n)
+                emit("root:%d:%d" % (i, n), -rt if a < 0 else rt)
+            elif op == "str":
+                r = rng.choice([2, 8, 10, 10, 16, 16, 36, 3, 7, 32])
+                signed = rng.random() < 0.6
+                v = a if signed else abs(a)
+                t = to_radix(v, r, rng)
+                if v < 0:
+                    t = "-" + t
+                elif rng.random() < 0.2:
+                    t = "+" + t
+                if rng.random() < 0.06:
+                    t = rng.choice(["", "_", "-", t + "!", t + DIG[r] if r < 36 else "-" + t + " ", "+-" + t])   # malformed: ends the history (unless it happens to be valid)
+                    prog.append("str:%d:%d:%s" % (1 if signed else 0, r, t.encode().hex())); break
+                emit("str:%d:%d:%s" % (1 if signed else 0, r, t.encode().hex()), v)
+            elif op in ("leb", "beb"):
+                v = abs(a)
+                bs = list(v.to_bytes((v.bit_length() + 7) // 8, "little")) + [0] * rng.choice([0, 0, 1, 7, 8, 9, 16, 17])
+                if rng.random() < 0.3:
+                    bs = [rng.randrange(256) for _ in range(rng.choice([0, 1, 7, 8, 9, 15, 16, 17, 24, 25, 40]))]
+                    v = int.from_bytes(bytes(bs), "little")
+                if op == "beb":
+                    bs = bs[::-1]
+                emit("%s:%s" % (op, bytes(bs).hex()), v)
+            elif op in ("sleb", "sbeb"):
+                v = a
+                if rng.random() < 0.25:
+                    v = -(1 << (8 * rng.choice([1, 8, 9, 16, 17, 24]) - 1)) + rng.choice([0, 0, 1, -1])   # top byte exactly 0x80 / 0x7f.. / 0x80..01
+                bs = twos_le(v, rng)
+                if rng.random() < 0.3:
+                    bs = [rng.randrange(256) for _ in range(rng.choice([0, 1, 7, 8, 9, 15, 16, 17, 24, 25, 40]))]
+                    if bs:
+                        bs[-1] = rng.choice([0, 0x7f, 0x80, 0xff, bs[-1]])
+                    v = int.from_bytes(bytes(bs), "little", signed=True) if bs else 0
+                if op == "sbeb":
+                    bs = bs[::-1]
+                emit("%s:%s" % (op, bytes(bs).hex()), v)
+            elif op in ("vle", "vbe"):
+                emit("%s:%d" % (op, i), a)
             else:
                 if a < 0:
                     if rng.random() < 0.1:
@@ -333,7 +436,7 @@ def generate(rng, tier):
     #      exact ties / tie+-1 / tiny / all-max discarded part, both signs, second operand shorter / longer than
     #      2p, 3p and rhs.digits+p (the pre-shrink thresholds)
     CTAGS = ["2Z", "2E", "2A", "10H", "10H", "10E", "10D", "10U", "10Z", "16Z", "16H", "3U"]
-    for _ in range(500 if quick else 15000):
+    for _ in range(500 if quick else 40000):
         tag = rng.choice(CTAGS)
         B = int(tag[:-1])
         pp = rng.choice([0, 1, 2, 3, 3, 4, 5, 7, 12, 19, 20, 40])
@@ -430,9 +533,9 @@ def nontrivial(c):
 
 
 RULE = ("integers: values of exactly 0..6,9 (thorough ..100) words in the C09 bit patterns plus values at 2^64, 2^128, 2^192 +- {0,1,2,2^63}; "
-        "`c.routes/ci.routes` build each value by 34 (UBig) / 22 (IBig) routes — from_words (also with leading zero words), parsing in "
+        "`c.routes/ci.routes` build each value by 40 (UBig) / 26 (IBig) routes — from_words (also with leading zero words), parsing in "
         "radix 10/16/36, clone, clone_from onto inline and heap targets, x+y-y with y of 1/2/3/5 words, (x<<k)>>k for k in {1,64,65,128,129}, "
-        "x*y/y, le/be bytes, |0, ^y^y, & ones, split_bits and rejoin, set_bit+clear_bit far above, clear_high_bits, IBig round trips, "
+        "x*y/y, le/be bytes, clone_from onto a 100-word and onto an equal-length heap target, sqrt(x^2), cbrt(x^3), radix-7 text, gcd(3x,5x), |0, ^y^y, & ones, split_bits and rejoin, set_bit+clear_bit far above, clear_high_bits, IBig round trips, "
         "u128/i128 conversion, ones(n), pow(1), carry into a new top word and back, gcd(x,x), zeros produced from negative operands — and "
         "require through the hook `repr_info` that every result is inline iff <= 2 words with no leading zero word (and zero is +0), and "
         "that all results are pairwise ==, cmp Equal, partial_cmp Equal and feed the same bytes to a recording Hasher; `c.cmp/cu.cmp`: "
@@ -445,7 +548,7 @@ RULE = ("integers: values of exactly 0..6,9 (thorough ..100) words in the C09 bi
         "one rational built by 16 / 15 routes (trailing-zero significands, precision changes incl. unlimited, +0, *1, shifts, "
         "parsing, integer conversion, rounding-mode change; non-reduced and signed parts, arithmetic round trips, parsing, "
         "Relaxed->canonicalize) whose representations must be the normalised / reduced one and pairwise ==, cmp Equal (and, for "
-        "RBig, hash-identical). `f.subcmp`: differences of equal-signed operands that keep the spare (p+1-st) digit, compared with values at the exponent thresholds of the precision shortcut and with neighbours; `f.viabase`: floats of base 16/8/4/9/27/100 with significands 2^j*odd, odd, multiples of the base, zero, converted exactly to the root base (with_base_and_precision, with_base, to_binary) — normalised, ==, cmp Equal to from_parts in the target base; every float the harness receives back is checked for normalisation (`!unnormalized` marker). `f.zero`: exact zeros of every origin (literal, default, from_parts(0,k), a-a, 0*a, -0, parsed; unlimited and limited precision; bases 2/10/16/3, five rounding modes) through every FBig producer in by-value / by-reference / compound-assignment form (shifts, mul, add/sub of zero, neg, abs, div, sqr, cubic, sqrt, powi, trunc..round, clone_from, with_precision/rounding/base) — each result must be significand 0 exponent 0, ==/cmp Equal to ZERO both ways, strictly between -1 and 1, same numeric hash feed. Non-trivial := an integer operand above one word, "
+        "RBig, hash-identical). `f.subcmp`: differences of equal-signed operands that keep the spare (p+1-st) digit, compared with values at the exponent thresholds of the precision shortcut and with neighbours; `f.viabase`: floats of base 16/8/4/9/27/100 with significands 2^j*odd, odd, multiples of the base, zero, converted exactly to the root base (with_base_and_precision, with_base, to_binary) — normalised, ==, cmp Equal to from_parts in the target base; every float the harness receives back is checked for normalisation (`!unnormalized` marker). `f.ctx`: one value `s*B^e` of ANY digit count rounded ONCE to p digits through every single-rounding route — owning (with_precision, Context::sub(0,-x), convert_int) and borrowing (Context::add(&0,&x), add(&x,&0), sub(&x,&0), powi(x,1), powf(x,1)) — all results must be the representation the model computes (reprRound), normalised, pairwise ==, cmp Equal, same numeric hash; then Context::mul/sqr/cubic/add/sub/div/inv/sqrt/powi(2,5,-3)/exp/ln on operands LONGER than the precision (the by-reference pre-shrink runs): normalised, <= p+1 digits, ==/cmp Equal to the rebuilt copy; classes: unlimited precision, digits <= p, kept digits ending in zero digits, all-max kept digits (carry), ties / tie+-1 / tiny / all-max discarded part, 11 (base, mode) pairs incl. base 3, second operand around the 2p / 3p / rhs.digits+p thresholds. `f.cmp` also compares through `Ord/PartialEq for Repr<B>` (no precisions). `c.hist` instruction set extended by gcd, sqrt, nth_root (n in 0..130), from_str_radix (radix 2..36, sign, underscores, leading zeros, malformed text ending the history), from_le/be_bytes (UBig and two-complement IBig; zero / sign-extension padding across word boundaries; top byte exactly 0x80; random byte strings) and byte round trips. `f.zero`: exact zeros of every origin (literal, default, from_parts(0,k), a-a, 0*a, -0, parsed; unlimited and limited precision; bases 2/10/16/3, five rounding modes) through every FBig producer in by-value / by-reference / compound-assignment form (shifts, mul, add/sub of zero, neg, abs, div, sqr, cubic, sqrt, powi, trunc..round, clone_from, with_precision/rounding/base) — each result must be significand 0 exponent 0, ==/cmp Equal to ZERO both ways, strictly between -1 and 1, same numeric hash feed. Non-trivial := an integer operand above one word, "
         "every float/rational case; distinct := distinct (op,args) lines.")
 
 REFINED = [
@@ -459,18 +562,30 @@ REFINED = [
     "float: repr_cmp_same_base (all 6 cases, any digit estimator that is an upper bound), Repr::normalize, PartialEq for FBig",
     "rational: repr_cmp, repr_eq (bit-length filters + cross multiplication), structural RBig ==, Hash for RBig (injective feed)",
     "float producers return the canonical (normalised) representation and at most p+1 digits (repr_round, add, sub, mul, sqr, cubic, repr_div)",
+    "round 4: Context::div incl. its by-reference pre-shrink of the dividend, inv, sqrt, powi (exponent >= 2: mirrored binary "
+    "exponentiation at the working precision; negative exponent: reversed context + reciprocal), convert_int / From<IBig> / "
+    "from_parts, the parser's significand assembly (int*B^fd + fract, precision = digit characters): <= p+1 (constructors: <= p) "
+    "digits and normalised, for operands of any length (float_results_fit_more, float_sources_fit)",
+    "round 4: history instruction set extended by gcd (C12's mirrored kernels), sqrt, nth_root (C12), from_str_radix (C07's mirrored "
+    "parser), from_le/be_bytes unsigned and two's complement (C07's mirrored decoders), to_*_bytes -> from_*_bytes round trips; "
+    "the interpreter hrunX is what the driver executes for `c.hist`",
 ]
 FRONTIER = [
-    "history theorem covers: const, fromWords (ANY raw word buffer -> from_buffer + sign: from_words, byte/chunk decoders, parsers, "
-    "from_parts), fromUnsigned/fromSigned (From<uN>/From<iN>), clone, neg, abs, !, sqr, pow, <<, >>, + - * / %, div_euclid, rem_euclid, & | ^, ones, set_bit, "
+    "history theorem covers: const, fromWords (ANY raw word buffer -> from_buffer + sign: from_words, chunk decoders, "
+    "from_parts), fromUnsigned/fromSigned (From<uN>/From<iN>), from_str_radix, from_le/be_bytes (UBig, IBig), byte round trips, "
+    "clone, neg, abs, !, sqr, pow, <<, >>, + - * / %, div_euclid, rem_euclid, & | ^, ones, gcd, sqrt, nth_root, set_bit, "
     "clear_bit, clear_high_bits, split_bits, next_power_of_two; NOT in the instruction set (covered by the multi-route "
     "correspondence through the repr_info hook and by the WF/Canon theorems of their owning properties): ConstDivisor division "
-    "(C02 proves WF), gcd/gcd_ext/sqrt/nth_root (C12), TryFrom<f32/f64> (C06), from_static_words (macro-only, "
-    "asserted precondition, C20), modular residues (C13), clone_from on the ledger model (C17)",
-    "float producers: the invariant the comparison needs is digits <= precision+1 (theorem float_cmp); it is proved for the "
-    "modelled Context operations repr_round/with_precision, add, sub, mul, sqr, cubic, repr_div (float_results_fit, using "
-    "builder-float's Closing lemmas) and checked on the real code by `f.fits` (single ops and chains); NOT modelled: exp/ln/powi, "
-    "parsing, conversions from primitives, Context::div's own pre-shrink, with_base (C08; fix 02e179b)",
+    "(C02 proves WF), gcd_ext coefficients / sqrt_rem / cbrt (C12), TryFrom<f32/f64> (C06), from_static_words (macro-only, "
+    "asserted precondition, C20), modular residues (C13), clone_from on the ledger model (C17). The new instructions compute "
+    "the VALUE with the owning property's mirrored kernels and assemble the representation by ofNat/sOfInt (= from_buffer/"
+    "from_word/from_dword + with_sign); inside sqrt the multi-word kernel is C12's contract-level `sqrtRemKernelFrontier`",
+    "float producers: digits <= precision+1 is proved for repr_round(_ref)/with_precision, add, sub, mul, sqr, cubic, repr_div, "
+    "Context::div (given sound digits_ub/digits_lb estimates), inv, sqrt, powi, convert_int, from_parts, parser assembly; NOT "
+    "modelled here: exp/ln/powf (their last step is repr_round / with_precision — C11 mirrors the bodies; checked on the real "
+    "code by `f.ctx`/`f.fits`), with_base (C08; fix 02e179b), TryFrom<f32/f64> (precision = mantissa bits, C06)",
+    "Repr::normalize / Repr::new are hand-mirrored (loops over `remove`-style digit stripping are outside the Tie A translator's "
+    "subset); tied by Tie B only (`!unnormalized` marker after every float producer)",
     "AbsOrd/AbsEq and cross-type comparisons are C14",
 ]
 EXPLANATION = ("Theorems: integers — cmp of canonical values = order of values; a value has exactly one canonical representation, so "
@@ -494,17 +609,22 @@ THEOREMS = ["Dashu.Props.C05." + n for n in [
     "cmp_wrong_without_canon", "producers_canonical", "signed_producers_canonical", "float_cmp",
     "float_cmp_needs_precision_bound", "float_normalize", "float_eq_iff_cmp_equal", "ratio_cmp", "relaxed_eq", "rbig_eq",
     "ratio_cmp_equal_iff_eq", "history_canonical", "history_values", "history_eq_cmp_hash",
-    "float_results_fit", "float_cmp_of_results", "float_spare_digit_occurs", "rbig_hash_follows_value", "float_results_canonical"]]
+    "float_results_fit", "float_cmp_of_results", "float_spare_digit_occurs", "rbig_hash_follows_value", "float_results_canonical",
+    "float_results_fit_more", "float_sources_fit", "float_cmp_equal_iff_eq"]]
 
 LEVEL_TEXT = ("Machine-checked Lean 4 theorems that (integers, every word size and length) comparison of canonical values is the order "
               "of the values and the canonical representation of a value is unique — so ==, the sequence fed to a Hasher and "
               "cmp==Equal all coincide with value equality — with the bit/shift-layer producers proved to return canonical form and a "
               "proved counterexample for the non-canonical value the old ones(128) built; (floats) repr_cmp_same_base equals the order of "
-              "the exact values for all precisions/rounding modes given digits <= precision+1 — which the modelled arithmetic producers "
+              "the exact values for all precisions/rounding modes given digits <= precision+1 — which the modelled producers (repr_round "
+              "and its borrowing twin, add, sub, mul, sqr, cubic, div incl. its pre-shrink, inv, sqrt, powi, convert_int, from_parts, the parser) "
               "are proved to guarantee, also along chains — with a proved counterexample at precision+2, normalize is canonical and == <=> cmp Equal; (rationals) repr_cmp/repr_eq equal cross-"
               "multiplication order/equality on non-reduced fractions and RBig's structural == is value equality on reduced ones. The "
-              "model is tied to /repo on every run by differential execution; integer values are additionally built through 34 (UBig) / "
-              "22 (IBig) independent routes whose results must be canonical (repr_info hook), pairwise ==, cmp Equal and hash-identical.")
+              "model is tied to /repo on every run by differential execution; integer values are additionally built through 40 (UBig) / "
+              "26 (IBig) independent routes whose results must be canonical (repr_info hook), pairwise ==, cmp Equal and hash-identical; "
+              "float values through 8-11 single-rounding routes (owning and borrowing) per case. History theorem: every value produced by any "
+              "finite program over 50 instructions (constructors, parser, byte decoders, ring/division/bit/shift operations, gcd, roots, "
+              "clones) is canonical, so ==/cmp/hash follow the value whichever operations produced the operands.")
 LEVEL_NOTE = ("Trusted: Lean kernel; axioms propext/Classical.choice/Quot.sound; correspondence harness + generators (sampling) for the "
               "tie model<->code and for the claim that *every* producer yields canonical form (proved here only for the producers listed "
               "in refined_kernels); the digit-estimate hypothesis. Repaired during this work: floats leaving with_base/convert_base "
